@@ -6,7 +6,7 @@ CONSTANTS
   MissSeq <- Miss1
   MaxDepLen = 2
   SchedLen = 3
-  MaxPer = 2
+  MaxPer = 1
   RepeatDeps = TRUE
   CycleItems = FALSE
   Defect_ReadyLen = FALSE
